@@ -21,6 +21,21 @@ CHECKS = {
          "Every Paloma sdk.Msg type registered with a handler is discovered at run time; for each an honest instance in the name of principal B is built from a live world state and then delivered as attacks signed only by an account A without grant (foreign signer, swapped creator with the body still naming B, swapped authority, confirmation with a foreign external signature). Oracle: an accepted attack leaves B's view (everything Paloma keeps in B's name, read through exported getters) and the governance view unchanged; honest and fee-grant-delegated deliveries must be accepted (so the templates are live). Held = held on the enumerated matrix in the generated world states.",
          "Exceptions the property states are exempt (fee-grant delegation, confirmations carrying B's own external signature, licences for fresh addresses); compass deployment bookkeeping and bad-signature evidence are outside the views; message types without a template are listed in the evidence.",
          "DESIGN.md §2 C03"),
+ "C04": ("exploration", "chain+world",
+         "exact big-integer reference model against the real tally/median code: bounded-exhaustive + random direct calls (AddEvidence, VerifyEvidence, VerifyGasEstimates, Median) and per-block oracle over real-tx histories of the real app",
+         "Pure part: every share vector of 1-5 validators over {1..7} x every assignment of abstain/3 evidence values x 3 ways of reaching it x 9 evidence families, random 30-175 validator sets with shares up to 2^200 steered to one-short/exact/one-above 2/3, all multisets of boundary uint64 estimates, all run through the real functions and compared with an exact rational/big-int reference. In situ: histories of real evidence and estimate txs (boundary-steered camps, split votes, re-submissions, outsiders, snapshot changes, real relay prelude); after every block removal, effects and elected estimates must be exactly what the reference decides from the monitor's own record. Held = held on those evaluations.",
+         "Evidence identity = type URL + value bytes of the submitted proof; estimates of bonded validators outside the snapshot are accepted into the median (literal reading); nil/garbage proofs belong to C09.",
+         "DESIGN.md §2 C04"),
+ "C05": ("exploration", "chain+world",
+         "self-calibrating metamorphic oracle (independent compass-ABI encoder vs the code's signing bytes, field mutation by reflection) + id high-water-mark monitor over raw consensus-store scans of real-app histories",
+         "Part 1: for generated messages of all action types and batches an independent encoder builds the call the remote contract is handed; for every reflected field x 8-16 alternative values and 2-4-field mutants, a changed delivered call must change the signing bytes (global signed->delivered map also catches cross-item collisions); VerifyAgainstTX calibrates the encoder and classifies fields by the code itself. Part 2: histories of the real app (jobs, estimates with fee attachment = replace in place, evidence, retries, snapshot supersession, pruning, chain removal/re-addition): every id handed out must exceed all committed ids, live in one queue, never reappear. Held = held on the generated pairs and histories.",
+         "Collision resistance of keccak assumed; values equal as delivered (gas 0 vs 300000, nil fees vs defaults, address spellings) are not changes; UploadSmartContract only bytecode+id.",
+         "DESIGN.md §2 C05"),
+ "C06": ("exploration", "chain+world",
+         "block-boundary invariant monitor with independent ecrecover over the monitor's own log of key registrations and sign events, on real-tx histories of the real app",
+         "Histories with valid / invalid / wrong-key / duplicate / replayed signatures and confirmations, signing before and after estimate election, fee attachment, key re-registration and hand-over, aliased registrations; after every block every stored signature and batch confirmation must recover (go-ethereum ecrecover over the item's CURRENT signing bytes) to a key its validator had registered for that chain when the monitor saw it sign, no validator and no key twice per item, and nothing signed over an earlier version of the bytes may remain. Held = held at every boundary of those histories.",
+         "Signing bytes taken from the item's own hashing code (their binding is C05); relayer re-assignment is not generated because no code path of the tree under test reaches it.",
+         "DESIGN.md §2 C06"),
  "C08": ("exploration", "chain+world",
          "twin executions of the same seeded history in separate processes under environment / restart / read-only-traffic / database variations with per-block digest comparison + 25-fold repeated evaluation of pure decisions on forked states",
          "Each omnibus history is executed by 4-6 twin processes that differ only in what must not matter (every env variable the sources read - found by scanning at check time - set vs unset, TZ/GOMAXPROCS/GOGC/LANG, restarts at block boundaries, read-only traffic incl. CheckTx/Simulate between blocks, memdb vs goleveldb); per block the digests of raw txs, tx results (code, data, gas, events), block events and app hash are compared. In the base twin relayer selection, snapshot construction, attestation processing and the end-blockers are evaluated 25x on forks of the same state and write sets and return values compared. Held = no divergence on those executions.",
@@ -36,6 +51,21 @@ CHECKS = {
          "Claim types and fields are discovered by reflection; for every single-field mutant pair the real attestation key must differ when the field is on the property's list, and a three-way differential run on forks of the real app (honest votes X / honest votes X' / byzantine X' first then honest X) through the real msg server, Attest, the skyway end-blocker and the attestation handler must show that pooled votes never produce a different effect. Held = held on the generated pairs.",
          "Single-field differences only (as the property quantifies); collision resistance of the hash assumed; key model cross-checked against the keys the keeper really writes and against a real ABCI block in every case.",
          "DESIGN.md §2 C11"),
+ "C15": ("exploration", "chain+world",
+         "math/big reference model of tax, refund, burn and limit windows against the real app (direct-mode histories at window edges, enumerated edge grids, one full ABCI flow with real governance)",
+         "Random direct-mode histories (amounts up to 2^256-1, decimal and fractional rates, exemption lists, all periods, heights walking through start+L-2..start+L+1, reconfiguration mid-history, batches executed or timed out), enumerated window-edge and tax grids, and an ABCI flow through real governance, ante and end-blockers; every send, cancel, execution and rejected send is compared with an exact big-integer model written from the statement; a keeper probe on a fork checks that a rejected transfer consumes no allowance. Held = held on those operations.",
+         "Fixed windows opened by the first accepted transfer after the previous one elapsed (the statement's reading); intermediate-overflow rejections counted, not judged.",
+         "DESIGN.md §2 C15"),
+ "C16": ("exploration", "chain+world",
+         "map-based reference model + complete bank/tokenfactory state comparison after every block of real-tx histories of the real app",
+         "Seeded histories of create / mint / burn / change-admin / set-metadata by admins, creators, holders and outsiders on factory, native, IBC-looking and malformed denoms with amounts 0..2^256-1 and forged creator/signers metadata, every message through the full ante chain; every successful tx is judged against the reference model and after every block ALL balances, supplies, bank metadata and the whole tokenfactory store are compared with it. Held = held on those histories.",
+         "No fee grants exist (a fee grant is chain-wide delegation); bridge and wasm-binding operations excluded so that the supply equation is exact.",
+         "DESIGN.md §2 C16"),
+ "C17": ("exploration", "chain+world",
+         "byte-level reference for the enqueued call + raw job-store immutability monitor + turnstone-queue diff around every create/execute request (txs, handlers on cache contexts, real wasm bindings)",
+         "Requests reach the scheduler as signed txs in real blocks, as handler calls on inspected cache contexts and through the real wasm message bindings with harness-supplied contract addresses; after every request the raw scheduler store must be byte-identical for existing jobs, duplicates refused, and the target chain's queue must have gained exactly the logic calls of the successful executes (payload = stored-or-supplied body + 32-byte left-padded requester, contract, flags) and nothing after a failed one. Held = held on those requests.",
+         "No wasm VM runs (the binding code is called directly); delivery of the enqueued calls is C07.",
+         "DESIGN.md §2 C17"),
  "C19": ("exploration", "pure",
          "reference-model monitor over insert/remove/select histories of the real mempool (bounded-exhaustive + seeded random)",
          "Every history of <=5 (quick) / <=6 (thorough) operations over a 2-sender x 2-sequence x 5-class alphabet plus seeded random histories over up to 8 senders is executed against the real DefaultPriorityMempool; after every operation a map-based reference model checks count, exactly-once, per-sender nonce order and the class-priority rule. Held = held on those histories.",
